@@ -32,6 +32,7 @@ fn main() {
         "C04" => main_for::<props::c04::P>(rest),
         "C05" => main_for::<props::c05::P>(rest),
         "C12" => main_for::<props::c12::P>(rest),
+        "C15" => main_for::<props::c15::P>(rest),
         "C07" => main_for::<props::c07::P>(rest),
         "C08" => main_for::<props::c08::P>(rest),
         "C13" => main_for::<props::c13::P>(rest),
